@@ -79,6 +79,12 @@ POW2_AXIOMS = [
               patterns=[z3.MultiPattern(pow2(_i), pow2(_j))]),
     pow2(0) == 1, pow2(1) == 2, pow2(2) == 4, pow2(3) == 8,
 ]
+# the same without the divisibility conjunct (for obligations that state divisibility through defined predicates instead)
+POW2_AXIOMS_LIN = [
+    z3.ForAll([_i], z3.Implies(_i >= 0, pow2(_i) >= 1), patterns=[pow2(_i)]),
+    z3.ForAll([_i, _j], z3.Implies(z3.And(0 <= _i, _i <= _j), pow2(_i) <= pow2(_j)), patterns=[z3.MultiPattern(pow2(_i), pow2(_j))]),
+    pow2(0) == 1, pow2(1) == 2, pow2(2) == 4, pow2(3) == 8,
+]
 _x, _y, _a, _b = z3.Ints("x_ax y_ax a_ax b_ax")
 # Divisibility lemmas (Lean: lemmas/Pow2.lean mod_trans, mod_add); instantiated by E-matching on the shown patterns only.
 MOD_LEMMAS = [
@@ -798,6 +804,7 @@ class Exec:
                 # X & (X - 1): only "a non-negative integer" is assumed about the result (for X >= 0).  Nothing the verified
                 # contracts claim depends on WHICH values pass the power-of-two test, so no bit-level lemma is trusted here.
                 q.assume(r >= 0)
+                q.ghost["pow2tests"] = q.ghost.get("pow2tests", ()) + ((x, r),)      # r names X & (X - 1) for this X
                 self.oblige("pow2-test-operand-nonneg", q, x >= 0, e)
                 out.append((r, q))
             return out
